@@ -109,6 +109,7 @@ class Session(object):
         self.do(42, [])
         self.do(45, [])
         self.do(39, [])
+        self.do(48, [])
         wes = self.webentities()
         lrus = list(dict.fromkeys(self.tr.lrus))
         probes = rng.sample(lrus, min(len(lrus), 6)) if lrus else []
